@@ -41,7 +41,7 @@ func init() {
 	register(&Property{
 		ID:      "C10",
 		NeedSSA: true,
-		Decided: "Narrow structural necessary conditions only: (swap) Swap of the nullable and repeated column-buffer wrappers exchanges every per-row array it keeps on every path (no early exit that swaps some arrays and not others), and Buffer/GenericBuffer swap all columns, not only the sorting columns; (direction) the descending wrapper compares (j, i), wraps exactly the columns declared descending, and the null ordering follows NullsFirst; (rowpos) the row comparator uses row positions as column indexes only when no leaf of the schema is repeated (the test is not nested under the sorting-column test); (metadata) recorded sorting columns are the declared ones (C05.sorting); (close) SortingWriter.Close propagates the errors of the run merge and the output writer (C14.errflow scope). (direction, cont.) the null ordering handed to a sorting column of a Buffer depends on both NullsFirst() and Descending(), because the descending wrapper inverts the whole comparison including the placement of nulls. (wraporder) the argument of CompareDescending never derives from CompareNullsFirst / CompareNullsLast (C09.wraporder).",
+		Decided: "Narrow structural necessary conditions only: (swap) Swap of the nullable and repeated column-buffer wrappers exchanges every per-row array it keeps on every path (no early exit that swaps some arrays and not others), and Buffer/GenericBuffer swap all columns, not only the sorting columns; (direction) the descending wrapper compares (j, i), wraps exactly the columns declared descending, and the null ordering follows NullsFirst; (rowpos) the row comparator uses row positions as column indexes only when no leaf of the schema is repeated (the test is not nested under the sorting-column test); (metadata) recorded sorting columns are the declared ones (C05.sorting); (close) SortingWriter.Close propagates the errors of the run merge and the output writer (C14.errflow scope). (direction, cont.) the null ordering handed to a sorting column of a Buffer depends on both NullsFirst() and Descending(), because the descending wrapper inverts the whole comparison including the placement of nulls. (wraporder) the argument of CompareDescending never derives from CompareNullsFirst / CompareNullsLast (C09.wraporder). (rowpos, cont.) no second condition stands between the repetition test and the store it guards.",
 		NotDecided: "that the result is an ordered permutation; offset bookkeeping of repeated columns when rows are reordered.",
 		Assumptions: []string{"see DESIGN.md §4 C10"},
 		Run:         runC10,
@@ -49,7 +49,7 @@ func init() {
 	register(&Property{
 		ID:      "C12",
 		NeedSSA: true,
-		Decided: "Narrow structural necessary conditions only: (polarity) the order-sensitive schema comparison recurses with the order-sensitive comparison and the order-insensitive one with itself; (insert) copyRows consults the schema comparison before it takes any fast path that bypasses conversion (RowWriterTo / RowReaderFrom), and inserts the conversion on the unequal edge; (adjacent) the choice of a sibling column to mirror for an added column compares repetition depth as well as the parent path; (errors) errors of Convert and of conversions are not dropped or swallowed; (convertvalue) ConvertValue of every physical type dispatches over every source kind or fails loudly; (marker) converted row groups never take chunk-level fast paths (C11.marker). (wrapper) every Page implementation that wraps another Page returns a value of its own type from Slice. (mergeconv) MergeRowGroups never returns a bare multi-row-group over converted inputs. (sortprefix) a loop that copies sorting columns one by one under a condition stops at the first column it rejects: the rejecting branch does not come back to the loop header, so the result is a prefix of the declared order. (insert, cont.) the RowWriterTo fast path of copyRows is asserted on the very value the slow path reads rows from (the source after the conversion was inserted), not on the reader as it was passed in.",
+		Decided: "Narrow structural necessary conditions only: (polarity) the order-sensitive schema comparison recurses with the order-sensitive comparison and the order-insensitive one with itself; (insert) copyRows consults the schema comparison before it takes any fast path that bypasses conversion (RowWriterTo / RowReaderFrom), and inserts the conversion on the unequal edge; (adjacent) the choice of a sibling column to mirror for an added column compares repetition depth as well as the parent path; (errors) errors of Convert and of conversions are not dropped or swallowed; (convertvalue) ConvertValue of every physical type dispatches over every source kind or fails loudly; (marker) converted row groups never take chunk-level fast paths (C11.marker). (wrapper) every Page implementation that wraps another Page returns a value of its own type from Slice. (mergeconv) MergeRowGroups never returns a bare multi-row-group over converted inputs. (sortprefix) a loop that copies sorting columns one by one under a condition stops at the first column it rejects: the rejecting branch does not come back to the loop header, so the result is a prefix of the declared order. (insert, cont.) the RowWriterTo fast path of copyRows is asserted on the very value the slow path reads rows from (the source after the conversion was inserted), not on the reader as it was passed in. (nullable) the per-column flag of Convert that says whether the target column can hold nulls is computed from the maximum definition level of the leaf (its whole path), not from the leaf node alone.",
 		NotDecided: "level remapping and value equality through a conversion; behaviour on incompatible targets beyond the presence of an error path.",
 		Assumptions: []string{"see DESIGN.md §4 C12"},
 		Run:         runC12,
@@ -527,7 +527,31 @@ func runC10(c *Ctx) {
 					}
 				}
 			}
-			if !nested {
+			// … and for every leaf that is repeated, whatever else is true of it:
+			// no second condition stands between the repetition test and what
+			// it switches off (the blocks on its true edge up to the first
+			// store do not end in another test)
+			conjunct := false
+			for t := ifi.Block().Succs[0]; t != nil; {
+				stores := false
+				for _, x := range t.Instrs {
+					if _, isStore := x.(*ssa.Store); isStore {
+						stores = true
+					}
+				}
+				if stores {
+					break
+				}
+				if _, isIf := t.Instrs[len(t.Instrs)-1].(*ssa.If); isIf {
+					conjunct = true
+					break
+				}
+				if len(t.Succs) != 1 {
+					break
+				}
+				t = t.Succs[0]
+			}
+			if !nested && !conjunct {
 				ok = true
 			}
 		})
@@ -587,6 +611,12 @@ func swapWritesOnAllPaths(pc *pathCons, fn *ssa.Function, f *types.Var) bool {
 }
 
 func runC12(c *Ctx) {
+	// whether a target column can hold nulls is a property of its whole path (an
+	// optional or repeated ancestor makes a required leaf nullable): the flag
+	// recorded per converted column comes from the maximum definition level
+	runWire(c, "C12.nullable", wireSpec{Fn: "Convert", Sink: "field:conversionColumn.isOptional", Through: true,
+		Allowed: []string{"field:leafColumn.maxDefinitionLevel", "const"}, Require: []string{"field:leafColumn.maxDefinitionLevel"}})
+	c.Min("C12.nullable", 1)
 	// pages re-indexed for the target schema stay re-indexed when sliced
 	wrapperPreservedRule(c, "C12.wrapper", "Page", "Slice", 4)
 	// MergeRowGroups converts every input to the merged schema; values are
